@@ -15,7 +15,22 @@ namespace Iodata.Props.C19
 open Iodata.Inputs
 open Iodata.Select (Str)
 
-/-! ## geometry: one line per atom, in order -/
+/-! ## geometry with the default atom line: one line per atom, in order
+
+`geometry t atoms` is the default block written over the atoms; `geometryWith_default` (G0) shows that it is what
+the generic `geometryWith` computes for the programs' `default_atom_line`, so G1–G3 are corollaries about the
+model the driver runs. -/
+
+/-- G0. With the default callback the generic geometry is the default block; an atom without a symbol makes the
+default callback raise `KeyError` (an `Exception`), never a non-`str` value. -/
+theorem geometryWith_default (t : List (Nat × Str)) (m : Mol) :
+    geometryWith (defaultAtomLine t) m =
+      match geometry t m.atoms with
+      | some g => .ok g
+      | none => .raised (.exception sKeyError) := by
+  unfold geometryWith
+  rw [range_map_default]
+  exact geomOf_default t m.atoms
 
 /-- G1. The geometry block exists iff every atom has an element symbol, and then it is the atoms'
 lines, one per atom, in the order of the atoms, joined by newlines (all molecules, by induction). -/
@@ -115,6 +130,107 @@ theorem atomLine_spec (t : List (Nat × Str)) (a : Atom) :
     rintro l rfl
     refine ⟨e.2, by rw [← hk]; exact hm, by simp⟩
 
+/-! ## geometry with an arbitrary atom-line callback -/
+
+/-- C1 (`geometry_lines_custom`). For EVERY callback and every object: the geometry block exists iff every call
+`atom_line(data, i)`, `i = 0 … natom-1`, returns a `str`, and it is then those strings, one per atom, in the order
+of the atoms, joined by single newlines.  Nothing is added, dropped, re-ordered, stripped or re-formatted. -/
+theorem geometry_lines_custom (f : AtomLineFn) (m : Mol) (g : Str) :
+    geometryWith f m = .ok g ↔
+      ∃ lines : List Str, lines.length = m.atoms.length ∧
+        (∀ i (h : i < lines.length), f m i = .line lines[i]) ∧ g = joinNl lines := by
+  unfold geometryWith geomOf
+  constructor
+  · intro h
+    cases hc : collect ((List.range m.atoms.length).map (f m)) with
+    | error e => simp only [hc] at h; cases h
+    | ok items =>
+      simp only [hc] at h
+      cases ha : allSome items with
+      | none => simp only [ha] at h; cases h
+      | some lines =>
+        simp only [ha, GeomRes.ok.injEq] at h
+        have hl := (collect_ok_lines _ lines).mp ⟨items, hc, ha⟩
+        have hlen : lines.length = m.atoms.length := by
+          have := congrArg List.length hl; simpa using this.symm
+        refine ⟨lines, hlen, ?_, h.symm⟩
+        intro i hi
+        have := congrArg (fun l => l[i]?) hl
+        simpa [List.getElem?_map, List.getElem?_range (hlen ▸ hi), List.getElem?_eq_getElem hi] using this
+  · rintro ⟨lines, hlen, hpt, rfl⟩
+    have hl : (List.range m.atoms.length).map (f m) = lines.map .line := by
+      apply List.ext_getElem (by simp [hlen])
+      intro i h1 h2
+      simp only [List.getElem_map, List.getElem_range]
+      exact hpt i (by simpa using h2)
+    obtain ⟨items, hc, ha⟩ := (collect_ok_lines _ lines).mpr hl
+    rw [hc]; simp only [ha]
+
+/-- C2. What a reader that splits the block at newlines sees: the lines of the first callback string, then the
+lines of the second, … — `natom + (number of newline characters inside the callback strings)` lines in total.
+So "one line per atom" holds for a custom callback exactly when none of its strings contains a newline (an empty
+string is one empty line); a string with an embedded newline contributes two lines, the model and the code do not
+prevent that. -/
+theorem geometry_split_custom (f : AtomLineFn) (m : Mol) (hne : m.atoms ≠ []) (lines : List Str)
+    (hlen : lines.length = m.atoms.length) (hpt : ∀ i (h : i < lines.length), f m i = .line lines[i]) :
+    geometryWith f m = .ok (joinNl lines) ∧
+    splitNl (joinNl lines) = lines.flatMap splitNl ∧
+    (splitNl (joinNl lines)).length = m.atoms.length + (lines.map (List.count '\n')).sum ∧
+    ((splitNl (joinNl lines)).length = m.atoms.length ↔ ∀ l ∈ lines, '\n' ∉ l) := by
+  have hne' : lines ≠ [] := by
+    intro h; rw [h] at hlen; exact hne (List.eq_nil_of_length_eq_zero hlen.symm)
+  have hs := splitNl_joinNl_flatMap lines hne'
+  have hl : (splitNl (joinNl lines)).length = m.atoms.length + (lines.map (List.count '\n')).sum := by
+    rw [hs, length_flatMap_splitNl, hlen]
+  refine ⟨(geometry_lines_custom f m _).mpr ⟨lines, hlen, hpt, rfl⟩, hs, hl, ?_⟩
+  rw [hl, ← sum_count_nl_eq_zero]
+  omega
+
+/-- C3. The first call that raises ends the comprehension with that exception: the callback has been called for
+atoms `0 … k` and for no later atom (whatever earlier calls returned, `str` or not). -/
+theorem geometry_raise (f : AtomLineFn) (m : Mol) (k : Nat) (hk : k < m.atoms.length) (r : Raised)
+    (hr : f m k = .raises r) (hpre : ∀ j, j < k → (f m j).isRaise = false) :
+    geometryWith f m = .raised r ∧ geometryCalls f m = List.range (k + 1) := by
+  constructor
+  · unfold geometryWith geomOf
+    rw [collect_raise ((List.range m.atoms.length).map (f m)) k (by simpa using hk) r
+      (by simpa using hr) (fun j hj => by simpa using hpre j hj)]
+  · unfold geometryCalls
+    rw [callsMade_raise (f m) (List.range m.atoms.length) k (by simpa using hk)
+      (by simp [hr, LineRes.isRaise]) (fun j hj => by simpa using hpre j hj)]
+    rw [List.take_range]
+    congr 1; omega
+
+/-- C4. No call raises but some call returns a non-`str` object: the callback is called for EVERY atom and the
+join fails (`TypeError`). -/
+theorem geometry_nonStr (f : AtomLineFn) (m : Mol) (hno : ∀ j, j < m.atoms.length → (f m j).isRaise = false)
+    (k : Nat) (hk : k < m.atoms.length) (hn : f m k = .nonStr) :
+    geometryWith f m = .typeError ∧ geometryCalls f m = List.range m.atoms.length := by
+  constructor
+  · unfold geometryWith geomOf
+    rw [collect_noraise _ (by
+      intro r hr
+      obtain ⟨j, hj, rfl⟩ := List.mem_map.mp hr
+      exact hno j (by simpa using hj))]
+    have : allSome (((List.range m.atoms.length).map (f m)).map LineRes.item) = none := by
+      rw [allSome_eq_none]
+      exact List.mem_map.mpr ⟨.nonStr, List.mem_map.mpr ⟨k, by simpa using hk, hn⟩, rfl⟩
+    simp only [this]
+  · unfold geometryCalls
+    exact callsMade_noraise _ _ (fun i hi => hno i (by simpa using hi))
+
+/-- C5. The calls made are always `atom_line(data, 0), …, atom_line(data, k-1)` for some `k ≤ natom`: in order,
+each atom at most once, never an index outside the molecule. -/
+theorem calls_initial_segment (f : AtomLineFn) (m : Mol) :
+    ∃ k, k ≤ m.atoms.length ∧ geometryCalls f m = List.range k := by
+  obtain ⟨k, hk, he⟩ := callsMade_prefix (f m) (List.range m.atoms.length)
+  refine ⟨k, by simpa using hk, ?_⟩
+  unfold geometryCalls
+  rw [he, List.take_range]
+  congr 1
+  have : k ≤ m.atoms.length := by simpa using hk
+  omega
+
 /-! ## fields: defaults and precedence -/
 
 /-- P1. `geometry` is always the generated block — even a keyword argument named `geometry` cannot replace it. -/
@@ -213,41 +329,100 @@ theorem programFields_spec (p : Program) (m : Mol) :
     refine ⟨by simp [lookup, sLot], by simp [lookup, sLot, sBasis], e.2, by rw [← hk]; exact hm, ?_⟩
     simp [lookup, sLot, sBasis, sRunType]
 
-/-! ## errors -/
+/-! ## errors, file state and the callback -/
 
-/-- E1. An unknown program name is a `FileFormatError` (and only that is); every failure while rendering —
-unknown element, unknown run type, unknown template field, malformed template — is a `WriteInputError`;
-no other error class exists. -/
-theorem writeInput_errors (t : List (Nat × Str)) (ps : List Program) (m : Mol) (fmt : Str)
-    (template : Option Str) (kw : Fields) :
-    (writeInput t ps m fmt template kw = .error .fileFormatError ↔ ∀ p ∈ ps, p.name ≠ fmt) ∧
+/-- E1. Outcome of `api.write_input` for every program name, object, template, callback and keyword arguments.
+An unknown program name is a `FileFormatError` (and only that is) and then the file is NOT opened and the callback
+never called.  For a known program the file HAS been opened for writing (created or truncated) before anything is
+rendered; every `Exception` while rendering is a `WriteInputError`, a `BaseException` that is not an `Exception`
+leaves unchanged, and in both cases the file stays behind EMPTY (the text is printed in one piece after rendering
+succeeded).  No other error class exists. -/
+theorem run_errors (t : List (Nat × Str)) (ps : List Program) (m : Mol) (fmt : Str)
+    (template : Option Str) (cb : Option AtomLineFn) (kw : Fields) :
+    ((run t ps m fmt template cb kw).error = some .fileFormatError ↔ ∀ p ∈ ps, p.name ≠ fmt) ∧
+    ((∀ p ∈ ps, p.name ≠ fmt) → run t ps m fmt template cb kw = ⟨some .fileFormatError, none, []⟩) ∧
     (∀ p, ps.find? (fun p => p.name == fmt) = some p →
-      (writeInput t ps m fmt template kw = .error .writeInputError ↔ render t p m template kw = none) ∧
-      (∀ s, writeInput t ps m fmt template kw = .ok s ↔ render t p m template kw = some s)) := by
-  unfold writeInput
+      (run t ps m fmt template cb kw).calls = renderCalls t p m cb ∧
+      (run t ps m fmt template cb kw).file ≠ none ∧
+      ((run t ps m fmt template cb kw).error ≠ none → (run t ps m fmt template cb kw).file = some []) ∧
+      ((run t ps m fmt template cb kw).error = some .writeInputError ↔ render t p m template cb kw = .fail) ∧
+      (∀ c, (run t ps m fmt template cb kw).error = some (.passThrough c) ↔ render t p m template cb kw = .pass c) ∧
+      (∀ s, ((run t ps m fmt template cb kw).error = none ∧ (run t ps m fmt template cb kw).file = some s) ↔
+        render t p m template cb kw = .ok s)) := by
+  unfold run
   cases hf : ps.find? (fun p => p.name == fmt) with
   | none =>
     rw [List.find?_eq_none] at hf
-    simp only [true_iff, reduceCtorEq, false_imp_iff, implies_true, and_true]
-    intro p hp; simpa using hf p hp
+    have hall : ∀ p ∈ ps, p.name ≠ fmt := fun p hp => by simpa using hf p hp
+    simp
+    exact hall
   | some p =>
     have hm := List.mem_of_find?_eq_some hf
     have hk : p.name = fmt := by simpa using List.find?_some hf
-    try simp only [hf]
-    constructor
-    · constructor
-      · intro h; split at h <;> cases h
-      · intro h; exact absurd hk (h p hm)
+    have hnot : ¬ ∀ p ∈ ps, p.name ≠ fmt := fun h => h p hm hk
+    refine ⟨?_, fun h => absurd h hnot, ?_⟩
+    · simp only [hnot, iff_false]
+      generalize render t p m template cb kw = r
+      cases r <;> simp
     · intro p' hp'
       cases hp'
-      split
-      · next hr => simp [hr]
-      · next s hr => simp [hr]
+      dsimp only
+      generalize render t p m template cb kw = r
+      cases r <;> simp
 
-/-- E2. Rendering fails exactly when the run type is unknown, an atom has no symbol, or the template cannot be
-formatted with the available fields. -/
-theorem render_none_iff (t : List (Nat × Str)) (p : Program) (m : Mol) (template : Option Str) (kw : Fields) :
-    render t p m template kw = none ↔
+/-- E2. Rendering ends with an `Exception` exactly when the run type is unknown, a callback raises an `Exception`,
+a callback returns a non-`str` (and none raises), or the template cannot be formatted with the available fields. -/
+theorem render_fail_iff (t : List (Nat × Str)) (p : Program) (m : Mol) (template : Option Str)
+    (cb : Option AtomLineFn) (kw : Fields) :
+    render t p m template cb kw = .fail ↔
+      programFields p m = none ∨
+      ∃ pf, programFields p m = some pf ∧
+        ((∃ c, geometryWith (cb.getD (defaultAtomLine t)) m = .raised (.exception c)) ∨
+         geometryWith (cb.getD (defaultAtomLine t)) m = .typeError ∨
+         ∃ g e, geometryWith (cb.getD (defaultAtomLine t)) m = .ok g ∧
+           format (allFields pf m kw g) (template.getD p.template) = .error e) := by
+  unfold render
+  cases h1 : programFields p m with
+  | none => simp
+  | some pf =>
+    cases h2 : geometryWith (cb.getD (defaultAtomLine t)) m with
+    | raised r => cases r <;> simp
+    | typeError => simp
+    | ok g =>
+      cases h3 : format (allFields pf m kw g) (template.getD p.template) with
+      | error e => simp [h3]
+      | ok s => simp [h3]
+
+/-- E3. Rendering lets a `BaseException` through exactly when the run type is known and the first raising call of
+the callback raises it; the programs' default callbacks never do. -/
+theorem render_pass_iff (t : List (Nat × Str)) (p : Program) (m : Mol) (template : Option Str)
+    (cb : Option AtomLineFn) (kw : Fields) (c : Str) :
+    (render t p m template cb kw = .pass c ↔
+      programFields p m ≠ none ∧ geometryWith (cb.getD (defaultAtomLine t)) m = .raised (.baseOnly c)) ∧
+    render t p m template none kw ≠ .pass c := by
+  constructor
+  · unfold render
+    cases h1 : programFields p m with
+    | none => simp
+    | some pf =>
+      cases h2 : geometryWith (cb.getD (defaultAtomLine t)) m with
+      | raised r => cases r <;> simp
+      | typeError => simp
+      | ok g => cases h3 : format (allFields pf m kw g) (template.getD p.template) <;> simp [h3]
+  · unfold render
+    cases h1 : programFields p m with
+    | none => simp
+    | some pf =>
+      simp only [Option.getD_none, geometryWith_default]
+      cases geometry t m.atoms with
+      | none => simp
+      | some g => cases h3 : format (allFields pf m kw g) (template.getD p.template) <;> simp [h3]
+
+/-- E4 (default callback, the former E2). Without a callback rendering fails exactly when the run type is unknown,
+an atom has no symbol, or the template cannot be formatted with the available fields. -/
+theorem render_default_fail_iff (t : List (Nat × Str)) (p : Program) (m : Mol) (template : Option Str)
+    (kw : Fields) :
+    render t p m template none kw = .fail ↔
       programFields p m = none ∨ geometry t m.atoms = none ∨
       ∃ pf g, programFields p m = some pf ∧ geometry t m.atoms = some g ∧
         ∃ e, format (allFields pf m kw g) (template.getD p.template) = .error e := by
@@ -255,12 +430,90 @@ theorem render_none_iff (t : List (Nat × Str)) (p : Program) (m : Mol) (templat
   cases h1 : programFields p m with
   | none => simp
   | some pf =>
+    simp only [Option.getD_none, geometryWith_default]
     cases h2 : geometry t m.atoms with
     | none => simp
     | some g =>
       cases h3 : format (allFields pf m kw g) (template.getD p.template) with
       | error e => simp [h3]
       | ok s => simp [h3]
+
+/-- E5 (`callback_failure_is_WriteInputError`). Known program, known run type, and the callback's first raising
+call is at atom `k`.  If it raises an instance of ANY subclass of `Exception`, `write_input` raises
+`WriteInputError`; if it raises a `BaseException` that is not an `Exception` (KeyboardInterrupt, SystemExit,
+GeneratorExit, …) that exception propagates unchanged.  In both cases the output file has already been opened —
+it exists and is empty, previous content is gone — and the callback was called exactly for atoms `0 … k`.
+Template, keyword arguments and later atoms play no role. -/
+theorem callback_failure_is_WriteInputError (t : List (Nat × Str)) (ps : List Program) (m : Mol) (fmt : Str)
+    (template : Option Str) (f : AtomLineFn) (kw : Fields) (p : Program)
+    (hp : ps.find? (fun p => p.name == fmt) = some p) (hrt : programFields p m ≠ none)
+    (k : Nat) (hk : k < m.atoms.length) (hpre : ∀ j, j < k → (f m j).isRaise = false) :
+    (∀ c, f m k = .raises (.exception c) →
+      run t ps m fmt template (some f) kw = ⟨some .writeInputError, some [], List.range (k + 1)⟩) ∧
+    (∀ c, f m k = .raises (.baseOnly c) →
+      run t ps m fmt template (some f) kw = ⟨some (.passThrough c), some [], List.range (k + 1)⟩) := by
+  cases hpf : programFields p m with
+  | none => exact absurd hpf hrt
+  | some pf =>
+    constructor <;> intro c hc
+    all_goals
+      obtain ⟨hg, hcalls⟩ := geometry_raise f m k hk _ hc hpre
+      simp [run, hp, render, renderCalls, hpf, hg, hcalls]
+
+/-- E6. Known program and run type, no call raises, some call returns a non-`str`: `WriteInputError`
+(from the `TypeError` of the join), file opened and empty, callback called for every atom. -/
+theorem callback_nonstring_is_WriteInputError (t : List (Nat × Str)) (ps : List Program) (m : Mol) (fmt : Str)
+    (template : Option Str) (f : AtomLineFn) (kw : Fields) (p : Program)
+    (hp : ps.find? (fun p => p.name == fmt) = some p) (hrt : programFields p m ≠ none)
+    (hno : ∀ j, j < m.atoms.length → (f m j).isRaise = false)
+    (k : Nat) (hk : k < m.atoms.length) (hn : f m k = .nonStr) :
+    run t ps m fmt template (some f) kw = ⟨some .writeInputError, some [], List.range m.atoms.length⟩ := by
+  cases hpf : programFields p m with
+  | none => exact absurd hpf hrt
+  | some pf =>
+    obtain ⟨hg, hcalls⟩ := geometry_nonStr f m hno k hk hn
+    simp [run, hp, render, renderCalls, hpf, hg, hcalls]
+
+/-- E7. Failures that precede the callback: for an unknown program or an unknown run type the callback is never
+called, whatever it would do (even raise `KeyboardInterrupt`); the former leaves the file untouched, the latter
+leaves it opened and empty. -/
+theorem callback_not_called (t : List (Nat × Str)) (ps : List Program) (m : Mol) (fmt : Str)
+    (template : Option Str) (cb : Option AtomLineFn) (kw : Fields) :
+    ((∀ p ∈ ps, p.name ≠ fmt) → run t ps m fmt template cb kw = ⟨some .fileFormatError, none, []⟩) ∧
+    (∀ p, ps.find? (fun p => p.name == fmt) = some p → programFields p m = none →
+      run t ps m fmt template cb kw = ⟨some .writeInputError, some [], []⟩) := by
+  refine ⟨(run_errors t ps m fmt template cb kw).2.1, ?_⟩
+  intro p hp hpf
+  simp [run, hp, render, renderCalls, hpf]
+
+/-- E8 (precedence). A user callback REPLACES the program's default for every atom: the outcome does not depend on
+the element table at all (the default is never consulted), and omitting the callback is the same as passing the
+program's `default_atom_line`. -/
+theorem callback_replaces_default (t t' : List (Nat × Str)) (ps : List Program) (m : Mol) (fmt : Str)
+    (template : Option Str) (f : AtomLineFn) (kw : Fields) :
+    run t ps m fmt template (some f) kw = run t' ps m fmt template (some f) kw ∧
+    run t ps m fmt template none kw = run t ps m fmt template (some (defaultAtomLine t)) kw := by
+  constructor <;> simp [run, render, renderCalls]
+
+/-- E9. With a callback that returns a `str` for every atom the `geometry` field handed to the template is the join
+of ITS strings (for any atomic numbers, also ones without an element symbol), the callback is called once per atom
+in order, and the only remaining failure is the template. -/
+theorem custom_geometry_rendered (t : List (Nat × Str)) (ps : List Program) (m : Mol) (fmt : Str)
+    (template : Option Str) (f : AtomLineFn) (kw : Fields) (p : Program) (pf : Fields)
+    (hp : ps.find? (fun p => p.name == fmt) = some p) (hpf : programFields p m = some pf)
+    (lines : List Str) (hlen : lines.length = m.atoms.length)
+    (hpt : ∀ i (h : i < lines.length), f m i = .line lines[i]) :
+    run t ps m fmt template (some f) kw =
+      match format (allFields pf m kw (joinNl lines)) (template.getD p.template) with
+      | .ok s => ⟨none, some (s ++ ['\n']), List.range m.atoms.length⟩
+      | .error _ => ⟨some .writeInputError, some [], List.range m.atoms.length⟩ := by
+  have hg := (geometry_lines_custom f m _).mpr ⟨lines, hlen, hpt, rfl⟩
+  have hcalls : geometryCalls f m = List.range m.atoms.length :=
+    callsMade_noraise _ _ (fun i hi => by
+      have hi' : i < lines.length := by rw [hlen]; simpa using hi
+      simp [hpt i hi', LineRes.isRaise])
+  simp only [run, hp, render, renderCalls, hpf, Option.getD_some, hg, hcalls]
+  cases format (allFields pf m kw (joinNl lines)) (template.getD p.template) <;> rfl
 
 /-! ## the tables and templates found in the source (closed by computation over `Gen/Inputs.lean`) -/
 
@@ -316,5 +569,30 @@ example : fmtFix6 957200 = "  0.957200".toList ∧ fmtFix6 (-1) = " -0.000001".t
 
 example : roundHalfEven (1 / 2) = 0 ∧ roundHalfEven (3 / 2) = 2 ∧ roundHalfEven (-1 / 2) = 0 ∧
     roundHalfEven (5 / 2) = 2 ∧ roundHalfEven (3 / 5) = 1 ∧ roundHalfEven (-7 / 4) = -2 := by decide +kernel
+
+/-- a callback that ignores the elements: text with braces for atom 0, two lines for atom 1, empty for atom 2 -/
+private def demoCb : AtomLineFn := fun _ i =>
+  match i with
+  | 0 => .line ['{','l','o','t','}']
+  | 1 => .line ['a','\n','b']
+  | 2 => .line []
+  | 3 => .raises (.baseOnly ['K','I'])
+  | 4 => .nonStr
+  | _ => .raises (.exception ['Z'])
+
+private def demoMol (n : Nat) : Mol := ⟨List.replicate n ⟨0, 0, 0, 0⟩, none, none, none, none, none, none⟩
+
+/-- atomic number 0 has no symbol, yet the custom callback renders; braces are not re-interpreted; the block of
+three atoms splits into four lines -/
+example : run num2sym programs (demoMol 3) "orca".toList (some "{geometry}|".toList) (some demoCb) [] =
+    ⟨none, some "{lot}\na\nb\n|\n".toList, [0, 1, 2]⟩ := by decide +kernel
+example : run num2sym programs (demoMol 3) "orca".toList (some "{geometry}|".toList) none [] =
+    ⟨some .writeInputError, some [], [0]⟩ := by decide +kernel
+example : run num2sym programs (demoMol 5) "gaussian".toList none (some demoCb) [] =
+    ⟨some (.passThrough ['K','I']), some [], [0, 1, 2, 3]⟩ := by decide +kernel
+example : run num2sym programs (demoMol 9) "nwchem".toList none (some demoCb) [] =
+    ⟨some .fileFormatError, none, []⟩ := by decide +kernel
+example : splitNl (joinNl [['{','l','o','t','}'], ['a','\n','b'], []]) =
+    [['{','l','o','t','}'], ['a'], ['b'], []] := by decide +kernel
 
 end Iodata.Props.C19
